@@ -23,11 +23,11 @@ CONFIG = {'assumptions': [
     'the hashed part of a SysV table is indices 1..n-1 (index 0 is STN_UNDEF, the chain terminator), of a GNU table symoffset..n-1',
     'the ELF header and section headers of the synthesized image are written by the harness (they are C01 subject matter); '
     'linked-section type validation (elffile.py _get_linked_*) is exercised by opening the image but has no theorem here']}
-LEVEL = {'text': 'Machine-checked (31 theorems, no axioms), all for unbounded sizes and BOTH classes/byte orders: a symbol table of any '
+LEVEL = {'text': 'Machine-checked (37 theorems, no axioms), all for unbounded sizes and BOTH classes/byte orders: a symbol table of any '
                  'length and any sh_entsize >= the standard entry, placed anywhere in any image with its string table placed anywhere, '
                  'is enumerated to exactly the encoded entries in index order (every field; names through the string table), '
                  'get_symbol(i) and num_symbols are exact, get_symbol_by_name returns exactly the symbols bearing the name in order or '
-                 'None; SHT_SYMTAB_SHNDX entry i and the Solaris syminfo enumeration are exact; the code\'s elf_hash and gnu_hash equal '
+                 'None - and does so after ANY history of calls on the section object (num_symbols, get_symbol, enumerations abandoned after any number of steps, earlier lookups): the object\'s one mutable attribute _symbol_name_map is modelled, the invariant None-or-complete-map is proved preserved by every call (C03_history_free, C03_by_name_after_history); SHT_SYMTAB_SHNDX entry i and the Solaris syminfo enumeration are exact; the code\'s elf_hash and gnu_hash equal '
                  'the standard 32-bit recurrences on every input; for ALL tables satisfying the boolean predicates wf_sysv_hash / '
                  'wf_gnu_hash (no builder is trusted) SysV and GNU lookups are sound (a returned symbol bears the name and lies in the '
                  'hashed part), complete (a present name is found) and return None without error for every absent name (bucket, '
@@ -52,7 +52,9 @@ RULE = ('cases: (a) hash functions on byte strings (random ASCII/UTF-8/raw bytes
         'queried with every present name (sampled on large tables) and absent names (random, same bucket, same full hash, bloom '
         'false positive); (e) four real shared objects (GNU ld and gold, ELF32/ELF64, corpus/C03): decoded by the harness with struct, the '
         'Coq spec encoders must reproduce the section bytes and wf_sysv_hash / wf_gnu_hash must accept the linker\'s tables, then all '
-        'present names and 40 absent ones are looked up. distinct = hash(kind, abstract); non-trivial = a table with >= 2 symbols, or a hash-function input of '
+        'present names and 40 absent ones are looked up; (f) histories of 1..9 calls on ONE SymbolTableSection object (num_symbols, '
+        'get_symbol, enumerations abandoned after 0 / 1 / some / all / more-than-all steps by dropping or closing the generator, '
+        'lookups by name before and after, names beyond and on both sides of the stop point) against the stateless spec. distinct = hash(kind, abstract); non-trivial = a table with >= 2 symbols, or a hash-function input of '
         '>= 2 bytes')
 
 SHT = {'NULL': 0, 'SYMTAB': 2, 'STRTAB': 3, 'HASH': 5, 'DYNSYM': 11, 'SYMTAB_SHNDX': 18,
@@ -304,7 +306,39 @@ def gen(ctx):
         if not big and n <= 12 and rng.random() < 0.5:
             # the same symbols under a second, independent GNU parameter choice
             cases.append(('gnu', common + [queries, _gnu_params(rng, names)]))
+    # ---- (f) histories on ONE SymbolTableSection object (its _symbol_name_map is state)
+    for _ in range(140 * T):
+        n = rng.choice([1, 2, 3, 4, 5, 6, 8, 10, 12, rng.randint(0, 12), rng.randint(13, 60)])
+        common, names, _q = _scenario(rng, n)
+        cases.append(('symhist', common + [rng.randrange(3), _history(rng, names)]))
     return cases
+
+
+def _history(rng, names):
+    """a sequence of calls: ['num'] ['get', i] ['iter', k, how-abandoned] ['byname', q].  Enumerations stop anywhere
+    (0 steps, the first entry, mid-table, the last entry, past the end); lookups prefer names whose occurrences lie
+    beyond / on both sides of a previous stop point and absent names."""
+    n = len(names)
+    ops = []
+    absent = _absent_queries(rng, names, 3)
+    for _ in range(rng.choice([1, 2, 2, 3, 3, 4, 5, 6, 8])):
+        r = rng.random()
+        if r < 0.35:
+            k = rng.choice([0, 1, 1, 2, rng.randint(0, n), rng.randint(0, n), max(n - 1, 0), n, n + 1])
+            ops.append(['iter', k, rng.randrange(3)])
+        elif r < 0.78:
+            if names and rng.random() < 0.75:
+                q = names[rng.choice([n - 1, rng.randrange(n), rng.randrange(n)])]
+            else:
+                q = rng.choice(absent) if absent else b'absent'
+            ops.append(['byname', q])
+        elif r < 0.92 and n > 0:
+            ops.append(['get', rng.choice([0, n - 1, rng.randrange(n)])])
+        else:
+            ops.append(['num'])
+    if not any(o[0] == 'byname' for o in ops):
+        ops.append(['byname', names[-1] if names else b''])
+    return ops
 
 
 def corpus(ctx):
@@ -321,6 +355,12 @@ def corpus(ctx):
             common2 = [le, is64, 62, 0, 0, 9, syms2]
             out.append(('sysv', common2 + [[b'!(xxxvw_!', b'plain', b'absent'], [3, 0]]))
     out.append(('hashfn', [b'!(xxxvw_!']))
+    # an enumeration abandoned after its first entry, then lookups of names beyond / around the stop point
+    hs = [s(b'', 0), s(b'alpha', 0x10), s(b'dup', 0x20), s(b'', 0x30), s(b'dup', 0x40)]
+    for le in (1, 0):
+        for is64 in (1, 0):
+            out.append(('symhist', [le, is64, 62, 0, 0, 11, hs, 0,
+                                    [['iter', 1, 0], ['byname', b'dup'], ['byname', b''], ['byname', b'alpha'], ['byname', b'zz']]]))
     # real linker output (GNU ld and gold, both classes): see corpus/C03/README
     for f in _corpus_files():
         out.append(('elf-file', [f.encode(), ctx.rng.getrandbits(32)]))
@@ -482,6 +522,9 @@ def evaluate(ctx, cases):
             continue
         if kind == 'elf-file':
             _eval_file(ctx, kind, a, ENUMS)
+            continue
+        if kind == 'symhist':
+            _eval_hist(ctx, kind, a, ENUMS)
             continue
         _eval_table(ctx, kind, a, ENUMS)
 
@@ -807,3 +850,74 @@ def _eval_file(ctx, kind, a, ENUMS):
         ctx.notes.append('corpus file %s is NOT certified in-domain (reencoded=%s symtab_ok=%s wf_sysv=%s wf_gnu=%s)' %
                          (fname, reencoded, ok, wfs, wfg))
     ctx.record(kind, a, impl=impl, spec=spec, model=model, in_domain=in_dom, nontrivial=True, key=key)
+
+
+# ------------------------------------------------------------------ histories on one section object
+def _eval_hist(ctx, kind, a, ENUMS):
+    """One SymbolTableSection object driven through a sequence of calls.  The property's lookup by name must answer
+    the same after ANY history (the object memoizes the name map in _symbol_name_map); model = Model/C03Sections.v
+    sym_run on a fresh object, spec = the stateless Spec/C03Sym.v answer (theorem C03_history_free)."""
+    from elftools.elf.elffile import ELFFile
+    from tools.lib import sx
+    drv = ctx.driver
+    le, is64, machine, extra, strmode, fill_seed, syms, symtype_i, ops = a
+    rng = random.Random(fill_seed)
+    n = len(syms)
+    entsize = (24 if is64 else 16) + extra
+    names = [s_[0] for s_ in syms]
+    strtab, offs = _build_strtab(names, strmode, rng)
+    rows = [[[offs[i]] + list(s_[1:]), _garbage(rng, extra)] for i, s_ in enumerate(syms)]
+    calls = [o[:2] if o[0] == 'iter' else o for o in ops]
+    symbytes, ok, (calls_ok, answers) = drv.batch([['enc_symtab', le, is64, rows], ['symtab_ok', is64, entsize, rows, strtab],
+                                                    ['spec_hist', strtab, rows, calls]])
+    in_dom = bool(ok) and bool(calls_ok) and all(_is_utf8(x) for x in names) and \
+        all(_is_utf8(o[1]) for o in ops if o[0] == 'byname')
+    secs = [dict(name='.strtab', type=SHT['STRTAB'], data=strtab, link=0, entsize=0),
+            dict(name='.symtab', type=SYMTYPES[symtype_i], data=symbytes, link=1, entsize=entsize)]
+    img, offs_sec = _assemble(le, is64, machine, secs, rng)
+    cfg = [le, is64, [offs_sec[1], len(symbytes), entsize], offs_sec[0]]
+    model = drv.one(['m_hist', img, cfg, calls])
+    symsec = ELFFile(io.BytesIO(img)).get_section(2)
+    impl = []
+    stops = []
+    for o in ops:
+        if o[0] == 'num':
+            impl.append(_call(lambda: _ok(symsec.num_symbols())))
+        elif o[0] == 'get':
+            impl.append(_call(lambda: _ok(_view(symsec.get_symbol(o[1]), ENUMS))))
+        elif o[0] == 'iter':
+            def run_iter():
+                g = symsec.iter_symbols()
+                got = []
+                for _ in range(o[1]):
+                    try:
+                        got.append(_view(next(g), ENUMS))
+                    except StopIteration:
+                        break
+                if o[2] == 1:
+                    g.close()
+                elif o[2] == 2:
+                    g = None                      # dropped while suspended
+                return _ok(got)
+            impl.append(_call(run_iter))
+            stops.append('0' if o[1] == 0 else ('past-end' if o[1] > n else ('all' if o[1] == n else 'mid')))
+        else:
+            q = o[1].decode('utf-8', errors='replace')
+            impl.append(_call(lambda: _ok((lambda r: 'none' if r is None else ['some', [_view(s_, ENUMS) for s_ in r]])(
+                symsec.get_symbol_by_name(q)))))
+    spec = list(answers)
+    ctx.bump('kind', kind)
+    ctx.bump('hist_len', len(ops) if len(ops) < 6 else '6+')
+    first_by = next(i for i, o in enumerate(ops) if o[0] == 'byname')
+    before = [o for o in ops[:first_by] if o[0] == 'iter']
+    ctx.bump('hist_first_byname_after', 'nothing' if first_by == 0 else
+             ('abandoned-enumeration' if any(0 < o[1] < n for o in before) else
+              ('full-enumeration' if any(o[1] >= n for o in before) else 'other-calls')))
+    for st in stops:
+        ctx.bump('hist_iter_stop', st)
+    key = None
+    for o, i_, s_ in zip(ops, impl, spec):
+        if sx.canon(i_) != sx.canon(s_):
+            key = 'symtab-history-' + o[0]
+            break
+    ctx.record(kind, a, impl=impl, spec=spec, model=list(model), in_domain=in_dom, nontrivial=n >= 2 and len(ops) >= 2, key=key)
